@@ -62,7 +62,10 @@ use std::ops::{Deref, Index};
 #[cfg(not(target_family = "wasm"))]
 use std::os::fd::AsRawFd;
 use std::path::{Path, PathBuf};
+#[cfg(not(simple_sds_verif_shuttle))]
 use std::sync::atomic::{AtomicUsize, Ordering};
+#[cfg(simple_sds_verif_shuttle)]
+use shuttle::sync::atomic::{AtomicUsize, Ordering};
 use std::{env, fs, io, mem, process, slice, str};
 #[cfg(not(target_family = "wasm"))]
 use std::{marker, ptr};
